@@ -237,6 +237,44 @@ def _split_parallel(fn):
       i += 1
 
 
+class _FlattenStarred(ast.NodeTransformer):
+  """`f(a, *(b, c))` -> `f(a, b, c)`; likewise in tuple / list displays."""
+
+  def __init__(self):
+    self.count = 0
+
+  def _flat(self, elts):
+    out = []
+    for e in elts:
+      if isinstance(e, ast.Starred) and isinstance(
+          e.value, (ast.Tuple, ast.List)) and not any(
+              isinstance(x, ast.Starred) for x in e.value.elts):
+        out.extend(e.value.elts)
+        self.count += 1
+      else:
+        out.append(e)
+    return out
+
+  def visit_Call(self, node):
+    self.generic_visit(node)
+    node.args = self._flat(node.args)
+    return node
+
+  def visit_Tuple(self, node):
+    self.generic_visit(node)
+    if isinstance(node.ctx, ast.Load):
+      node.elts = self._flat(node.elts)
+    return node
+
+  visit_List = visit_Tuple
+
+
+def flatten_starred_literals(fn) -> int:
+  t = _FlattenStarred()
+  t.visit(fn)
+  return t.count
+
+
 def eliminate_temps(fn, protect: Set[str] = frozenset()) -> int:
   """Substitutes single-assignment locals into their uses.  Returns the number
   of locals removed."""
@@ -366,6 +404,7 @@ def eliminate_temps(fn, protect: Set[str] = frozenset()) -> int:
     if isinstance(x, ast.If) and len(x.orelse) == 1 and isinstance(
         x.orelse[0], ast.Pass):
       x.orelse = []
+  flatten_starred_literals(fn)
   ast.fix_missing_locations(fn)
   return removed
 
